@@ -72,7 +72,7 @@ ATTACKS = {
     # stream data limit
     "sd-plus1": "streamDataLimit", "sd-far": "streamDataLimit", "sd-span": "streamDataLimit",
     "sd-fin-offset": "streamDataLimit", "sd-uni-plus1": "streamDataLimit", "sd-reset-final": "streamDataLimit",
-    "sd-existing-far": "streamDataLimit", "sd-local-bidi-plus1": "streamDataLimit",
+    "sd-existing-far": "streamDataLimit", "sd-local-bidi-plus1": "streamDataLimit", "sd-existing-reset-far": "streamDataLimit",
     "ok-sd-edge": "ok", "ok-sd-fin-edge": "ok",
     # connection data limit
     "cd-spread": "connDataLimit", "cd-spread-fin": "connDataLimit", "cd-spread-reset": "connDataLimit",
@@ -214,8 +214,22 @@ def fam_attack(rng, i):
             p["suni"] = 1
     if name == "sd-local-bidi-plus1":
         p["attack_at"] = rng.choice([3, 5])
-    if name == "sd-existing-far" and attacker == "s":
+    if name in ("sd-existing-far", "sd-existing-reset-far") and attacker == "s":
         p["suni"] = 1
+    if name == "sd-existing-reset-far":
+        # the victim's receive half is still open (Recv / Size Known) or was stopped by the local application
+        # (stop_sending() before the peer's RESET_STREAM arrives): the final size is checked against the limits either way
+        w = rng.choice([1000, 5000])
+        p["size"] = 20000
+        p["attack_at"] = rng.choice([2, 3, 4, 6])
+        if attacker == "c":
+            p["bidi"] = max(1, p["bidi"])
+            if rnd % 3 != 2:
+                p["stop_stream"] = 0
+                p["stop_after"] = rng.choice([0, 0, 700, 1400])
+                p["size"] = 60000
+                p["attack_at"] = rng.choice([5, 6, 7, 9, 10, 11, 13])
+                w = rng.choice([5000, 50000])
     if name.startswith("sl-") or name == "ok-sl-edge":
         # no stream may have been closed before the attack: keep the streams long and the attack early
         p["size"] = 20000
@@ -258,16 +272,29 @@ def written_totals(tr):
     return w
 
 
-def stream_knowledge(tr, ep, sid, before_idx):
+def _covered(ranges):
+    """length of the prefix [0, n) covered by the union of the half-open ranges"""
+    n = 0
+    for a, b in sorted(ranges):
+        if a > n:
+            break
+        n = max(n, b)
+    return n
+
+
+def stream_knowledge(tr, ep, sid, before_idx, stop_closes=True):
     """(final size known?, receive half already finished?) for endpoint `ep` and stream `sid` before record `before_idx`"""
     final = None
     read = 0
     finished = False
+    got = []
     for r in tr.recs:
         if r.idx >= before_idx:
             break
         if r.kind == "rxp" and r.ep == ep and r.space == "app":
             for f in r.frames:
+                if f["type"] == "STREAM" and f["id"] == sid:
+                    got.append((f["offset"], f["offset"] + len(f["data"])))
                 if f["type"] == "STREAM" and f["id"] == sid and f["fin"] and final is None:
                     final = f["offset"] + len(f["data"])
                 elif f["type"] == "RESET_STREAM" and f["id"] == sid:
@@ -277,6 +304,11 @@ def stream_knowledge(tr, ep, sid, before_idx):
         elif r.kind == "app" and r.ep == ep and r.args and r.args[0] == str(sid):
             if r.what == "read":
                 read = int(r.args[1]) + int(r.args[2])
+            elif r.what == "stop" and not stop_closes:
+                # local stop_sending(): the stream still waits for the peer's final size, unless everything up to a known
+                # final size had already arrived (Data Recvd: stop_sending() completes the stream at once)
+                if final is not None and _covered(got) >= final:
+                    finished = True
             elif r.what in ("eof", "stop") or (r.what == "err" and len(r.args) > 1 and r.args[1] == "receive"):
                 finished = True
     if final is not None and read >= final:
@@ -331,6 +363,13 @@ def o_c04_attack(tr):
                     allowed += RFC_ERROR_FOR["dataBeyondFinalSize"]      # §4.5: data beyond the known final size
                 if closed:
                     tag = ":closed-stream"
+            elif f["type"] == "RESET_STREAM" and name == "sd-existing-reset-far":
+                known, closed = stream_knowledge(tr, victim, f["id"], rx.idx, stop_closes=False)
+                if known:
+                    allowed += RFC_ERROR_FOR["finalSizeChanged"]         # §4.5: the final size is already known
+                if closed:
+                    return bad      # receive half already finished (all data read, or reset by the peer): the frame has
+                                    # no stream left to act on; only the open / stopped states give a verdict here
     if not rejected:
         if cls in MAY_IGNORE:
             return bad
